@@ -78,7 +78,7 @@ func (x *e1ctx) ordered(rule, key string, as, bs []*e1Event, whatA, whatB string
 			if a == b {
 				continue
 			}
-			if before(a.Call, b.Call) {
+			if evBeforeE1(a, b) {
 				x.c.OK(rule, key+":"+a.Site+"<"+b.Site, x.pos(b), whatA+" precedes "+whatB)
 				continue
 			}
@@ -597,20 +597,53 @@ func checkClone3Record(c *Check, r *e1Result, cl *ssa.Call) bool {
 // checkIDMaps: uid_map, then setgroups, then gid_map; each error returned.
 func checkIDMaps(c *Check) {
 	p := c.P
-	var fn *ssa.Function
-	for _, f := range p.PkgFuncs("pkg/forkexec") {
-		n := 0
+	// the writer: the smallest function of the package from which (directly, or through helpers it calls) the
+	// three files /proc/<pid>/{uid_map,setgroups,gid_map} are written
+	mapFile := func(ci ssa.CallInstruction) string {
+		for _, a := range ci.Common().Args {
+			if b, ok := a.(*ssa.BinOp); ok && b.Op == token.ADD {
+				if s, ok := constString(b.Y); ok && (s == "/uid_map" || s == "/gid_map" || s == "/setgroups") {
+					return s
+				}
+			}
+		}
+		return ""
+	}
+	type mapWrite struct {
+		file string
+		leaf ssa.CallInstruction // the call that names the file
+		site ssa.CallInstruction // the call in the writer through which it happens
+	}
+	writesOf := func(f *ssa.Function) []mapWrite {
+		var out []mapWrite
 		for _, ci := range callInstrs(f) {
-			for _, a := range ci.Common().Args {
-				if b, ok := a.(*ssa.BinOp); ok && b.Op == token.ADD {
-					if s, ok := constString(b.Y); ok && (s == "/uid_map" || s == "/gid_map" || s == "/setgroups") {
-						n++
+			if s := mapFile(ci); s != "" {
+				out = append(out, mapWrite{s, ci, ci})
+				continue
+			}
+			if _, callee := calleeOf(ci); callee != nil && inModule(callee) && callee.Pkg == f.Pkg && callee != f {
+				for _, c2 := range callInstrs(callee) {
+					if s := mapFile(c2); s != "" {
+						out = append(out, mapWrite{s, c2, ci})
 					}
 				}
 			}
 		}
-		if n >= 3 {
-			fn = f
+		return out
+	}
+	var fn *ssa.Function
+	var writes []mapWrite
+	for _, f := range p.PkgFuncs("pkg/forkexec") {
+		if f.Parent() != nil {
+			continue
+		}
+		ws := writesOf(f)
+		files := map[string]bool{}
+		for _, w := range ws {
+			files[w.file] = true
+		}
+		if len(files) == 3 && (fn == nil || len(f.Blocks) < len(fn.Blocks)) {
+			fn, writes = f, ws
 		}
 	}
 	if fn == nil {
@@ -618,33 +651,29 @@ func checkIDMaps(c *Check) {
 		return
 	}
 	var order []string
-	var calls []ssa.CallInstruction
-	for _, ci := range callInstrs(fn) {
-		for _, a := range ci.Common().Args {
-			if b, ok := a.(*ssa.BinOp); ok && b.Op == token.ADD {
-				if s, ok := constString(b.Y); ok && strings.HasPrefix(s, "/") {
-					order = append(order, s)
-					calls = append(calls, ci)
-				}
-			}
-		}
+	for _, w := range writes {
+		order = append(order, w.file)
 	}
 	want := []string{"/uid_map", "/setgroups", "/gid_map"}
 	okOrder := len(order) == 3
 	for i := 0; okOrder && i < 3; i++ {
-		if order[i] != want[i] || (i > 0 && !before(calls[i-1], calls[i])) {
+		if order[i] != want[i] || (i > 0 && !before(writes[i-1].site, writes[i].site)) {
 			okOrder = false
 		}
 	}
 	c.Cond(okOrder, "O9/id-maps", "forkexec."+fn.Name()+":order", p.Pos(fn.Pos()), "uid_map < setgroups < gid_map", "id-map files are written in order "+strings.Join(order, " < "))
-	// each write's error is returned: a failing write leads to a return of a non-nil error
-	for i, ci := range calls {
-		v, ok := ci.(ssa.Value)
-		if !ok {
-			continue
+	// each write's error is returned: a failing write leads to a return of a non-nil error (from the helper, if the
+	// write sits in one, and from the writer)
+	for _, w := range writes {
+		ret := true
+		for _, ci := range []ssa.CallInstruction{w.leaf, w.site} {
+			if v, ok := ci.(ssa.Value); ok {
+				if r1, _ := errPropagated(p, v); !r1 {
+					ret = false
+				}
+			}
 		}
-		ret, _ := errPropagated(p, v)
-		c.Cond(ret, "O9/id-maps", "forkexec."+fn.Name()+":err"+order[i], p.Pos(ci.Pos()), "error of writing "+order[i]+" is returned", "error of writing "+order[i]+" is not returned")
+		c.Cond(ret, "O9/id-maps", "forkexec."+fn.Name()+":err"+w.file, p.Pos(w.leaf.Pos()), "error of writing "+w.file+" is returned", "error of writing "+w.file+" is not returned")
 	}
 	// a failed id-map write is relayed to the waiting child as a nonzero word: in the function that calls the
 	// writer, on every path on which the writer returned an error, the word handed to the next write(2) on the
@@ -833,7 +862,7 @@ func e1SeccompObligations(x *e1ctx, rule string) {
 		}{{stops, "kill(self,SIGSTOP)"}, {traceme, "PTRACE_TRACEME"}} {
 			var pre []*Form
 			for _, e := range grp.evs {
-				if before(e.Call, s.Call) {
+				if evBeforeE1(e, s) {
 					pre = append(pre, e.Guard)
 				}
 			}
@@ -844,7 +873,7 @@ func e1SeccompObligations(x *e1ctx, rule string) {
 	for _, st := range stops {
 		var pre []*Form
 		for _, e := range traceme {
-			if before(e.Call, st.Call) {
+			if evBeforeE1(e, st) {
 				pre = append(pre, e.Guard)
 			}
 		}
